@@ -796,37 +796,50 @@ def translate(repo):
     # -- builder
     btoks = lex(b_src.split('#[cfg(test)]')[0])
     fns = find_fns(btoks)
+    helper_errors = []
     for key, want in ((('Value', 'bool_to_string'), EXPECT_BOOL_TO_STRING), (('Value', 'new'), EXPECT_VALUE_NEW),
                       (('ChannelUriStringBuilder', 'prefix_tag'), EXPECT_PREFIX_TAG)):
         if key not in fns:
-            raise Unsupported('helper %s::%s not found' % key)
+            helper_errors.append('helper %s::%s not found' % key)
+            continue
         got = norm_tokens(fns[key][3])
         if got != want:
-            raise Unsupported('helper %s::%s changed: %s' % (key[0], key[1], got))
+            helper_errors.append('helper %s::%s changed: %s' % (key[0], key[1], got))
     setters = []
     build = None
+    errors = list(helper_errors)
     for (impl, name), (is_pub, params, ret, body) in fns.items():
         if impl != 'ChannelUriStringBuilder':
             continue
-        self_kind, ps = split_params(params)
-        if name == 'build':
-            if self_kind != 'ref' or ps:
-                raise Unsupported('build() signature')
-            build = translate_build(body, str_consts)
-        elif self_kind == 'mut':
-            setters.append(translate_setter(name, ps, body, str_consts))
-        elif name == 'prefix_tag':
-            continue
-        else:
-            raise Unsupported('unexpected method %s' % name)
+        try:
+            self_kind, ps = split_params(params)
+            if name == 'build':
+                if self_kind != 'ref' or ps:
+                    raise Unsupported('build() signature')
+                build = translate_build(body, str_consts)
+            elif self_kind == 'mut':
+                setters.append(translate_setter(name, ps, body, str_consts))
+            elif name == 'prefix_tag':
+                continue
+            else:
+                raise Unsupported('unexpected method %s' % name)
+        except (Unsupported, IndexError, KeyError, AssertionError) as e:
+            # fail closed for this item only: the row is left out (tables_ok then fails), the rest is still
+            # translated so that model and oracle keep compiling and a failing input can be searched for
+            errors.append('%s: %s' % (name, e))
     if build is None:
-        raise Unsupported('build() not found')
+        if not any(x.startswith('build') for x in errors):
+            errors.append('build: not found')
+        build = ('prefix', 'media', [])
     pf, mf, rows = build
     out = ['(* GENERATED on every run by tools/props/c19_translate.py from src/channel_uri.rs and',
-           '   src/channel_uri_string_builder.rs of the repository under check. Do not edit. *)',
-           'From Coq Require Import ZArith List String.',
-           'Require Import V.Generated.GenConsts.', 'Require Import V.Model.UriTypes.',
-           'Import ListNotations.', 'Open Scope Z_scope.', 'Local Open Scope string_scope.', '']
+           '   src/channel_uri_string_builder.rs of the repository under check. Do not edit. *)']
+    if errors:
+        out.append('(* INCOMPLETE - the translator did not understand: %s.' % coq_comment_safe('; '.join(errors)))
+        out.append('   The rows concerned are missing (an untranslated build() has no emit rows); K1 is reported broken. *)')
+    out += ['From Coq Require Import ZArith List String.',
+            'Require Import V.Generated.GenConsts.', 'Require Import V.Model.UriTypes.',
+            'Import ListNotations.', 'Open Scope Z_scope.', 'Local Open Scope string_scope.', '']
     for n, v in consts:
         out.append('Definition %s : str := %s.  (* "%s" *)' % (n, cps(v), coq_comment_safe(v)))
     out.append('')
@@ -840,24 +853,29 @@ def translate(repo):
     out.append('Definition gen_tables : tables :=\n  {| t_setters := setter_table; t_emits := emit_table;\n'
                '     t_prefix_field := build_prefix_field; t_media_field := build_media_field;\n'
                '     t_scheme := AERON_SCHEME |}.')
-    return '\n'.join(out) + '\n', len(consts), len(setters), len(rows)
+    return '\n'.join(out) + '\n', len(consts), len(setters), len(rows), errors
 
 
 def generate():
+    """Writes GenUriTables.v whenever the constants could be read (so that the Coq files keep compiling and the
+    search for a failing input can go on); returns ok = False as soon as any item was not understood."""
     try:
-        text, nc, ns, ne = translate(core.REPO)
+        text, nc, ns, ne, errors = translate(core.REPO)
     except Unsupported as e:
         return False, 'c19_translate: unsupported source shape: %s' % e
     except (OSError, AssertionError, IndexError, KeyError) as e:
         return False, 'c19_translate: %s: %s' % (type(e).__name__, e)
     core.write_if_changed(os.path.join(core.COQ, 'Generated', 'GenUriTables.v'), text)
+    if errors:
+        return False, 'c19_translate: unsupported source shape: %s' % '; '.join(errors)
     return True, 'uri tables: %d constants, %d setters, %d emit rows' % (nc, ns, ne)
 
 
 if __name__ == '__main__':
     import sys
-    t, a, b, c = translate(sys.argv[1] if len(sys.argv) > 1 else '/repo')
+    t, a, b, c, errs = translate(sys.argv[1] if len(sys.argv) > 1 else '/repo')
     sys.stdout.write(t)
+    sys.stderr.write('errors: %s\n' % errs)
 
 
 TABLES = [generate]
